@@ -166,10 +166,11 @@ func TestVerifC01(t *testing.T) {
 
 	env := pmmvNewEnv()
 	defer env.close()
+	env.watchdog(run)
 
 	maxFrames := run.N(3000, 20000)
 	var totAllocs, totFrees, totOOM, totRealloc int
-	run.Cases(run.N(1000, 60000), func(c *vlib.Case) {
+	run.Cases(run.N(1000, 200000), func(c *vlib.Case) {
 		r := c.R.Fork(0xC01)
 		mf := maxFrames
 		big := r.Intn(25) == 0
